@@ -17,7 +17,10 @@ RULE_FRONTIER = (
     "the build is refused; distinct by (configuration, query, cut)")
 RULE_SEARCH = (
     "searches of the real core code (Dijkstra, A* with weight factors {default,0,1/2,1,3} and zero/exact/half/admissible/"
-    "inadmissible heuristic tables, vertex- and edge-oriented, forward and reverse, one case in twelve under KspSingleVia) "
+    "inadmissible heuristic tables, vertex- and edge-oriented, forward and reverse, one case in twelve under KspSingleVia; "
+    "Yens k=2..3 over Dijkstra / A* on the seeded/C04-6 network (an edge first validated after an allowed turn and reached "
+    "later after the restricted one; turn model alone and inside combined) and on random ladder networks with a turn "
+    "model, checker only, runs that panic or never return are counted and skipped) "
     "on searchkit worlds (boundary shapes, random digraphs n 3..40) whose FrontierModel is the REAL one (road class / "
     "vehicle restriction / turn restriction / combined, built from files and query JSON, sometimes under "
     "EdgeCutFrontierModel; about a quarter of the edges refused, restricted turns among adjacent pairs). I vs M: status, "
@@ -31,6 +34,7 @@ RULE_SEARCH = (
 CLASSES = [
     ("REJECT(reverse-turn", "K_reverse_turn"),
     ("REJECT(ksp-turn", "K_ksp_turn"),
+    ("REJECT(yens-junction-turn", "K_ksp_turn"),
     ("REJECT(query-edge", "K_query_edges"),
     ("REJECT(query-turn", "K_query_edges"),
 ]
@@ -53,6 +57,8 @@ def classify(case, i, m, s):
             if fid == "K_reverse_turn" and case.get("query", {}).get("dir") != "reverse":
                 return None
             if fid == "K_ksp_turn" and not case.get("ksp"):
+                return None
+            if prefix.startswith("REJECT(yens") != bool(case.get("yens")):
                 return None
             if fid == "K_query_edges" and case.get("query", {}).get("orient") != "edge":
                 return None
@@ -91,7 +97,10 @@ def run(chk):
         "a restricted turn (a, b) is a pair driven a then b (travel order); routes of a reverse search are read backwards",
         "the restricted-turn clause is proved for runs that never re-open a vertex (no_reopen), forward direction, "
         "vertex-oriented queries; outside: known findings K_reopen, K_reverse_turn, K_query_edges, K_ksp_turn",
-        "KspSingleVia and Yens are exercised on the implementation only (no model of the KSP drivers here: property C13)"]
+        "KspSingleVia and Yens are exercised on the implementation only (no model of the KSP drivers here: property C13); a "
+        "Yens run that panics or does not return within 1.2 s is that algorithm's own known defect (C13/C12): counted, skipped; "
+        "in a Yens route a restricted pair is exempt (K_ksp_turn) only where a root path (prefix of an earlier returned route) "
+        "meets its spur path - the spur search starts with no previous edge"]
     # the unit conversion table the frontier model reads is regenerated from the Rust sources on every run (C09 checks it)
     tres = vf.run_translators(which=["units"]).get("units", {"ok": False, "msg": "translator module tr_units.py missing"})
     chk.coverage["translator"] = {k: tres.get(k) for k in ("ok", "msg", "digest")}
